@@ -9,7 +9,7 @@ use futures::future::{select, Either};
 use s2n_quic::{
     client::Connect,
     provider::{
-        congestion_controller,
+        address_token, congestion_controller, endpoint_limits,
         io::testing::{primary, spawn, time, Executor, Handle},
         limits::Limits as QLimits,
         tls,
@@ -26,6 +26,28 @@ use std::time::Duration;
 pub enum Tls {
     Null,
     S2n,
+}
+
+/// certificate chain the s2n-tls server presents (the client trusts the matching root)
+#[derive(Clone, Copy, Debug, PartialEq)]
+pub enum Cert {
+    /// the repository's single self-signed test certificate (handshake fits in 3 x 1200 bytes)
+    Stock,
+    /// leaf + 2 RSA-4096 intermediates: TLS Certificate message of about 4.4 kB (> 3 x 1200)
+    Medium,
+    /// leaf + 4 RSA-4096 intermediates: about 8.3 kB (> 6 x 1200)
+    Large,
+}
+
+/// address validation by Retry before the handshake (RFC 9000 8.1.2)
+#[derive(Clone, Copy, Debug, PartialEq)]
+pub enum Retry {
+    Off,
+    /// every token-less Initial is answered with a Retry; tokens from the harness' deterministic format
+    Det,
+    /// the same with the library's default token format (HMAC keys drawn from the endpoint's random
+    /// provider - deterministic here -, rotated every second of virtual time, single use)
+    Stock,
 }
 
 #[derive(Clone, Copy, Debug, PartialEq)]
@@ -164,6 +186,10 @@ pub struct Scenario {
     pub cid_lifetime_ms: Option<u64>,
     /// replace / extend the transport-parameter block one side sends (null TLS only): (who, edit)
     pub tp_edit: Option<(u8, TpEdit)>,
+    pub cert: Cert,
+    pub retry: Retry,
+    /// vacuity guard: the fault-free run must show the server stopped by the anti-amplification limit
+    pub expect_amp_block: bool,
 }
 
 impl Scenario {
@@ -187,12 +213,15 @@ impl Scenario {
             key_update_every: None,
             cid_lifetime_ms: None,
             tp_edit: None,
+            cert: Cert::Stock,
+            retry: Retry::Off,
+            expect_amp_block: false,
         }
     }
     pub fn describe(&self) -> String {
         format!(
-            "{} tls={:?} cc={:?} mtu={} client={:?} server={:?} mode={:?} tasks={:?} small_read={:?}",
-            self.name, self.tls, self.cc, self.mtu, self.client, self.server, self.server_mode, self.tasks, self.client_small_read
+            "{} tls={:?} cert={:?} retry={:?} cc={:?} mtu={} client={:?} server={:?} mode={:?} tasks={:?} small_read={:?}",
+            self.name, self.tls, self.cert, self.retry, self.cc, self.mtu, self.client, self.server, self.server_mode, self.tasks, self.client_small_read
         )
     }
 }
@@ -243,6 +272,9 @@ pub enum TpEdit {
     Remove(u64),
     /// append raw bytes
     Append(Vec<u8>),
+    /// remove every occurrence of `to`, then append `to` with the value `from` has in the block
+    /// (nothing is appended when `from` is absent)
+    Copy { from: u64, to: u64 },
 }
 
 fn tp_varint(b: &[u8], p: &mut usize) -> Option<u64> {
@@ -271,8 +303,14 @@ fn tp_put_varint(out: &mut Vec<u8>, v: u64) {
 pub fn tp_apply(block: &[u8], edit: &TpEdit) -> Vec<u8> {
     let drop_id = match edit {
         TpEdit::Replace(id, _) | TpEdit::Remove(id) => Some(*id),
+        TpEdit::Copy { to, .. } => Some(*to),
         TpEdit::Append(_) => None,
     };
+    let copy_from = match edit {
+        TpEdit::Copy { from, .. } => Some(*from),
+        _ => None,
+    };
+    let mut copied: Option<Vec<u8>> = None;
     let mut out = Vec::new();
     let mut p = 0usize;
     while p < block.len() {
@@ -280,6 +318,9 @@ pub fn tp_apply(block: &[u8], edit: &TpEdit) -> Vec<u8> {
         let Some(id) = tp_varint(block, &mut p) else { break };
         let Some(len) = tp_varint(block, &mut p) else { break };
         let end = (p + len as usize).min(block.len());
+        if Some(id) == copy_from {
+            copied = Some(block[p.min(end)..end].to_vec());
+        }
         if Some(id) != drop_id {
             out.extend_from_slice(&block[start..end]);
         }
@@ -293,6 +334,13 @@ pub fn tp_apply(block: &[u8], edit: &TpEdit) -> Vec<u8> {
         }
         TpEdit::Append(raw) => out.extend_from_slice(raw),
         TpEdit::Remove(_) => {}
+        TpEdit::Copy { to, .. } => {
+            if let Some(value) = copied {
+                tp_put_varint(&mut out, *to);
+                tp_put_varint(&mut out, value.len() as u64);
+                out.extend_from_slice(&value);
+            }
+        }
     }
     out
 }
@@ -432,6 +480,136 @@ impl s2n_quic::provider::stateless_reset_token::Provider for DetTokenProvider {
         Ok(DetToken(self.0))
     }
 }
+
+// ------------------------------------------------------------------------------------------
+// address validation tokens (Retry)
+// ------------------------------------------------------------------------------------------
+
+type StockTokenFormat = <address_token::Default as address_token::Provider>::Format;
+
+/// Deterministic Retry-token format of the harness.  Token = odcid length, odcid (zero padded to
+/// 20), 16-byte keyed hash over (key, client address, client source connection id, odcid), zero
+/// padding up to the stock format's length.  It accepts exactly the tokens it issued, for the
+/// address and connection id they were issued to.  It has no expiry and is not single-use
+/// (RFC 9000 8.1.4 only *encourages* single use), so that a token survives any finite fault
+/// prefix: the stock format consumes a token before the Initial carrying it is authenticated,
+/// so one corrupted copy of that Initial makes the connection attempt fail for good - see
+/// notes/wL.md; scenario `hs/tls-retry-stock-token` runs the stock format without corruption.
+pub struct DetAddrToken {
+    key: u64,
+}
+
+impl DetAddrToken {
+    fn mac(&self, context: &address_token::Context<'_>, odcid: &[u8]) -> [u8; 16] {
+        let mut h = crate::mccore::splitmix64(self.key ^ 0x7e70_ad0e);
+        let mut eat = |bytes: &[u8]| {
+            h = crate::mccore::splitmix64(h ^ (bytes.len() as u64) << 56);
+            for b in bytes {
+                h = crate::mccore::splitmix64(h ^ *b as u64);
+            }
+        };
+        eat(format!("{:?}", context.remote_address).as_bytes());
+        eat(context.peer_connection_id);
+        eat(odcid);
+        let mut out = [0u8; 16];
+        out[..8].copy_from_slice(&h.to_be_bytes());
+        out[8..].copy_from_slice(&crate::mccore::splitmix64(h ^ self.key.rotate_left(29)).to_be_bytes());
+        out
+    }
+}
+
+const DET_TOKEN_BODY: usize = 1 + 20 + 16;
+
+impl address_token::Format for DetAddrToken {
+    const TOKEN_LEN: usize = <StockTokenFormat as address_token::Format>::TOKEN_LEN;
+
+    fn generate_new_token(&mut self, _context: &mut address_token::Context<'_>, _source_connection_id: &s2n_quic_core::connection::LocalId, _output_buffer: &mut [u8]) -> Option<()> {
+        None
+    }
+
+    fn generate_retry_token(&mut self, context: &mut address_token::Context<'_>, original_destination_connection_id: &s2n_quic_core::connection::InitialId, output_buffer: &mut [u8]) -> Option<()> {
+        let odcid = original_destination_connection_id.as_bytes();
+        if output_buffer.len() < DET_TOKEN_BODY || odcid.len() > 20 {
+            return None;
+        }
+        for b in output_buffer.iter_mut() {
+            *b = 0;
+        }
+        output_buffer[0] = odcid.len() as u8;
+        output_buffer[1..1 + odcid.len()].copy_from_slice(odcid);
+        let mac = self.mac(context, odcid);
+        output_buffer[21..37].copy_from_slice(&mac);
+        Some(())
+    }
+
+    fn validate_token(&mut self, context: &mut address_token::Context<'_>, token: &[u8]) -> Option<s2n_quic_core::connection::InitialId> {
+        if token.len() != Self::TOKEN_LEN || token.len() < DET_TOKEN_BODY {
+            return None;
+        }
+        let n = token[0] as usize;
+        if !(8..=20).contains(&n) || token[1 + n..21].iter().any(|b| *b != 0) || token[37..].iter().any(|b| *b != 0) {
+            return None;
+        }
+        let odcid = &token[1..1 + n];
+        let mac = self.mac(context, odcid);
+        if token[21..37] != mac {
+            return None;
+        }
+        s2n_quic_core::connection::InitialId::try_from_bytes(odcid)
+    }
+}
+
+pub enum TokenFormat {
+    Det(DetAddrToken),
+    Stock(StockTokenFormat),
+}
+
+impl address_token::Format for TokenFormat {
+    const TOKEN_LEN: usize = <StockTokenFormat as address_token::Format>::TOKEN_LEN;
+    fn generate_new_token(&mut self, c: &mut address_token::Context<'_>, id: &s2n_quic_core::connection::LocalId, out: &mut [u8]) -> Option<()> {
+        match self {
+            TokenFormat::Det(f) => f.generate_new_token(c, id, out),
+            TokenFormat::Stock(f) => f.generate_new_token(c, id, out),
+        }
+    }
+    fn generate_retry_token(&mut self, c: &mut address_token::Context<'_>, id: &s2n_quic_core::connection::InitialId, out: &mut [u8]) -> Option<()> {
+        match self {
+            TokenFormat::Det(f) => f.generate_retry_token(c, id, out),
+            TokenFormat::Stock(f) => f.generate_retry_token(c, id, out),
+        }
+    }
+    fn validate_token(&mut self, c: &mut address_token::Context<'_>, token: &[u8]) -> Option<s2n_quic_core::connection::InitialId> {
+        match self {
+            TokenFormat::Det(f) => f.validate_token(c, token),
+            TokenFormat::Stock(f) => f.validate_token(c, token),
+        }
+    }
+}
+
+pub struct TokenProvider {
+    pub stock: bool,
+    pub key: u64,
+}
+
+impl address_token::Provider for TokenProvider {
+    type Format = TokenFormat;
+    type Error = String;
+    fn start(self) -> Result<Self::Format, Self::Error> {
+        if self.stock {
+            let f = address_token::Provider::start(address_token::Default::default()).map_err(|e| e.to_string())?;
+            Ok(TokenFormat::Stock(f))
+        } else {
+            Ok(TokenFormat::Det(DetAddrToken { key: self.key }))
+        }
+    }
+}
+
+// certificate chains generated once by certs/generate.sh (never at run time)
+pub const ROOT_PEM: &str = include_str!("../certs/root.pem");
+pub const MEDIUM_CHAIN_PEM: &str = include_str!("../certs/medium-chain.pem");
+pub const MEDIUM_KEY_PEM: &str = include_str!("../certs/medium-key.pem");
+pub const LARGE_CHAIN_PEM: &str = include_str!("../certs/large-chain.pem");
+pub const LARGE_KEY_PEM: &str = include_str!("../certs/large-key.pem");
 
 // ------------------------------------------------------------------------------------------
 // application logic
@@ -934,10 +1112,24 @@ macro_rules! with_tls_cc {
             }
             (Tls::Null, Cc::Cubic) => $f(NoTls, NoTls, congestion_controller::Cubic::default(), congestion_controller::Cubic::default(), $($args),*),
             (Tls::Null, Cc::Bbr) => $f(NoTls, NoTls, congestion_controller::Bbr::default(), congestion_controller::Bbr::default(), $($args),*),
-            (Tls::S2n, Cc::Cubic) => $f((certificates::CERT_PEM, certificates::KEY_PEM), certificates::CERT_PEM, congestion_controller::Cubic::default(), congestion_controller::Cubic::default(), $($args),*),
-            (Tls::S2n, Cc::Bbr) => $f((certificates::CERT_PEM, certificates::KEY_PEM), certificates::CERT_PEM, congestion_controller::Bbr::default(), congestion_controller::Bbr::default(), $($args),*),
+            (Tls::S2n, Cc::Cubic) => {
+                let (chain, key, trust) = s2n_pems($scn.cert);
+                $f((chain, key), trust, congestion_controller::Cubic::default(), congestion_controller::Cubic::default(), $($args),*)
+            }
+            (Tls::S2n, Cc::Bbr) => {
+                let (chain, key, trust) = s2n_pems($scn.cert);
+                $f((chain, key), trust, congestion_controller::Bbr::default(), congestion_controller::Bbr::default(), $($args),*)
+            }
         }
     };
+}
+
+fn s2n_pems(cert: Cert) -> (&'static str, &'static str, &'static str) {
+    match cert {
+        Cert::Stock => (certificates::CERT_PEM, certificates::KEY_PEM, certificates::CERT_PEM),
+        Cert::Medium => (MEDIUM_CHAIN_PEM, MEDIUM_KEY_PEM, ROOT_PEM),
+        Cert::Large => (LARGE_CHAIN_PEM, LARGE_KEY_PEM, ROOT_PEM),
+    }
 }
 
 #[allow(clippy::too_many_arguments)]
@@ -960,6 +1152,12 @@ where
     CC: congestion_controller::Provider,
 {
     let e = |x: &dyn std::fmt::Display| x.to_string();
+    // Retry: the library's own endpoint limiter with an in-flight handshake limit of zero answers
+    // every token-less Initial with a Retry (without a limit it is the default limiter)
+    let mut endpoint_limits = endpoint_limits::Default::builder();
+    if scn.retry != Retry::Off {
+        endpoint_limits = endpoint_limits.with_inflight_handshake_limit(0).map_err(|x| e(&x))?;
+    }
     let server = Server::builder()
         .with_io(handle.builder().with_max_mtu(scn.mtu).build().map_err(|x| e(&x))?)
         .map_err(|x| e(&x))?
@@ -974,6 +1172,10 @@ where
         .with_stateless_reset_token(DetTokenProvider(scn.seed ^ 0x5e57_70c))
         .map_err(|x| e(&x))?
         .with_limits(scn.server.build())
+        .map_err(|x| e(&x))?
+        .with_endpoint_limits(endpoint_limits.build().map_err(|x| e(&x))?)
+        .map_err(|x| e(&x))?
+        .with_address_token(TokenProvider { stock: scn.retry == Retry::Stock, key: scn.seed ^ 0x5e57_a770 })
         .map_err(|x| e(&x))?
         .with_congestion_controller(server_cc)
         .map_err(|x| e(&x))?
